@@ -92,6 +92,10 @@ type auCall struct {
 	Reg  []auRegAns `json:"reg"`
 	Tok  []auTokAns `json:"tok"`
 	Form int        `json:"form"` // how the caller's scope texts are written
+	// HostHdr: the request's Host field. "" = as http.NewRequest sets it (the URL host); "other" = the name of
+	// the OTHER configured registry; "unconf" = a name nothing is configured for.  The URL - where the
+	// request is actually sent - is H's in every case, and so are the credentials that may travel.
+	HostHdr string `json:"hosthdr"`
 }
 
 type auStep struct {
@@ -325,6 +329,17 @@ func auConcretise(sc *auScen, rnd *rand.Rand) {
 	}
 }
 
+// auHostHdr picks the Host override of a call (one call in four carries one).
+func auHostHdr(rnd *rand.Rand) string {
+	switch x := rnd.Intn(20); {
+	case x < 3:
+		return "other"
+	case x < 5:
+		return "unconf"
+	}
+	return ""
+}
+
 // ---------------------------------------------------------------- the seeded generator
 
 func auSubset(rnd *rand.Rand, max int) []string {
@@ -418,6 +433,7 @@ func auRandScen(rnd *rand.Rand, timed bool, maxTick int, conc bool) auScen {
 				call.Want = auSubset(rnd, 2)
 			}
 			call.Body = []string{"none", "none", "plain", "getbody"}[rnd.Intn(4)]
+			call.HostHdr = auHostHdr(rnd)
 			first := auRegAns{Status: 200}
 			switch x := rnd.Intn(100); {
 			case x < 60:
@@ -551,7 +567,7 @@ func auFromWalk(w auWalk, rnd *rand.Rand) auScen {
 		case "call":
 			sort.Strings(o.Req)
 			sort.Strings(o.Want)
-			sc.Steps = append(sc.Steps, auStep{At: o.At, Calls: []auCall{{H: o.H, Req: o.Req, Want: o.Want, Body: o.Body, Form: rnd.Intn(5)}}})
+			sc.Steps = append(sc.Steps, auStep{At: o.At, Calls: []auCall{{H: o.H, Req: o.Req, Want: o.Want, Body: o.Body, Form: rnd.Intn(5), HostHdr: auHostHdr(rnd)}}})
 			if o.At > 0 {
 				sc.Timed = true
 			}
@@ -972,6 +988,16 @@ func (r *auRun) doCall(tr http.RoundTripper, slot int, call *auCall, at int, beg
 	if err != nil {
 		panic(err)
 	}
+	switch call.HostHdr {
+	case "other":
+		for _, id := range auHosts {
+			if id != call.H {
+				hreq.Host = r.concrete(id)
+			}
+		}
+	case "unconf":
+		hreq.Host = "elsewhere.example:5000"
+	}
 	hreq.Header.Set("Accept", "application/vnd.oci.image.manifest.v1+json")
 	hreq.Header.Set("User-Agent", "verif-harness")
 	if call.Body == "getbody" {
@@ -981,7 +1007,7 @@ func (r *auRun) doCall(tr http.RoundTripper, slot int, call *auCall, at int, beg
 	}
 	snap := auSnapshot(hreq)
 	r.mu.Lock()
-	r.log(auEv{"op": "begin", "c": slot, "h": call.H, "req": call.Req, "want": call.Want, "body": call.Body}, true)
+	r.log(auEv{"op": "begin", "c": slot, "h": call.H, "req": call.Req, "want": call.Want, "body": call.Body, "hosthdr": hreq.Host, "urlhost": hreq.URL.Host}, true)
 	r.mu.Unlock()
 	if begun != nil { // every call of the batch has begun before any of them proceeds
 		begun.Done()
